@@ -96,11 +96,17 @@ def run(R):
         stats["trees"] += 1
         with cli.Sandbox(tree) as sb:
             before = sb.snapshot(state=True)
-            cmds = [(["plan", search, replace, "--dry-run", "--quiet"], "plan --dry-run"),
-                    (["plan", search, replace, "--dry-run", "--preview", "diff"], "plan --dry-run --preview diff"),
-                    (["search", search, "--quiet"], "search"),
-                    (["rename", search, replace, "--dry-run", "--quiet"], "rename --dry-run"),
-                    (["replace", "--no-regex", search, replace, "--dry-run", "--quiet"], "replace --dry-run")]
+            # every read-only command x every way of choosing the output (the dry-run gate must come before any write whatever is
+            # printed, and whether or not the pattern also matches file and directory names)
+            bases = [(["plan", search, replace, "--dry-run"], "plan --dry-run"), (["search", search], "search"),
+                     (["rename", search, replace, "--dry-run"], "rename --dry-run"),
+                     (["replace", "--no-regex", search, replace, "--dry-run"], "replace --no-regex --dry-run"),
+                     (["replace", search.replace("_", "[_-]"), replace, "--dry-run"], "replace <regex> --dry-run"),
+                     (["replace", "--no-regex", search, replace, "--dry-run", "--no-rename-paths"], "replace --dry-run --no-rename-paths")]
+            outs = [(["--quiet"], "--quiet"), (["--output", "json"], "--output json"), (["--preview", "diff"], "--preview diff"),
+                    (["--preview", "table"], "--preview table"), ([], "")]
+            cmds = [(b_ + (["--preview", "matches"] if b_[0] == "search" and o_ == ["--preview", "diff"] else o_), (bl + " " + ol).strip())
+                    for b_, bl in bases for o_, ol in outs]
             for args, label in cmds:
                 rc, o, e = sb.run(["--no-auto-init", "-y"] + args)
                 after = sb.snapshot(state=True)
